@@ -196,6 +196,26 @@ func c14Decls() []c14Pos {
 	}
 }
 
+// resolverShapes: namespace/import programs (every import x every namespace form x
+// three reference kinds) for entry - used by C11 and C13 to exercise the resolver.
+func resolverShapes(entry, ver string, fuel int64) []JobNeed {
+	var out []JobNeed
+	stmts := []segs{
+		cat("new ", symID(), "\\Q;"),
+		cat(symID(), "();"),
+		cat("echo ", symID(), ";"),
+	}
+	for _, im := range c14Imports() {
+		for ni, ns := range c14Namespaces() {
+			t := ns.f(im.text, stmts[ni%len(stmts)])
+			out = append(out, JobNeed{Job: jobTmpl(entry, "resolver programs", tmpl(t...), ver, fuel)})
+		}
+	}
+	return out
+}
+
+const resolverBound = "resolver programs: 22 import declarations x 8 namespace forms with one reference (new / call / constant fetch) whose first segment and the import's alias are symbolic identifiers"
+
 func runC14(c *Check) error {
 	c.Assumptions = append(c.Assumptions, stdAssumptions...)
 	c.Assumptions = append(c.Assumptions,
